@@ -114,7 +114,7 @@ class CorruptFamily(Family):
         dry = run_scenario(b, [])
         total = dry.world.wires[0].npushed if dry.world.wires else 0
         if sl == 0:
-            u.add_result(dry, b, "C15", nontrivial=False, keep_sample=(bi % 7 == 0))
+            u.add_result(dry, b, self.prop, nontrivial=False, keep_sample=(bi % 7 == 0))
         if total == 0:
             return u
         r = gen.mk_rng(seed, "c15corrupt")
@@ -132,8 +132,28 @@ class CorruptFamily(Family):
             s["net"]["corrupt"] = {"wire": 0, "ops": [{"at": at, "kind": kind, "seed": at * 7 + 1,
                                                       "n": r.choice([1, 4, 64])}]}
             res = self.run_scenario(s)
-            u.add_result(res, s, "C15", nontrivial=True)
+            u.add_result(res, s, self.prop, nontrivial=True)
         return u
+
+
+class CorruptLeakFamily(CorruptFamily):
+    """C06 under peer misbehaviour: the same corrupted conversations, judged by the socket
+    ledger - once the pool has been closed no stream it opened may still be open, however
+    the connection died."""
+
+    def __init__(self, nq, nt):
+        super().__init__(nq, nt)
+        self.prop = "C06"
+        self.name = "corrupt-peer-async"
+
+    def run_scenario(self, scn):
+        from .. import oracles
+
+        res = run_scenario(scn, [])
+        if not res.error:
+            oracles.leak_oracle(res, "C06")
+        res.violations = list(res.world.violations)
+        return res
 
 
 def h2_frame(typ, flags, sid, payload):
@@ -478,3 +498,8 @@ register("C15", {
     TraceRaceFamily("h2-trace-race-async", 100, 2000),
     CallerErrorFamily("C15", "caller-errors-async", 600, 6000),
     ProxyReplyFamily("C15", "proxy-replies-async", 1500, 30000)])
+
+# C06's corrupted-peer family lives here because c05.py cannot import this module (cycle)
+from . import _FAMS  # noqa: E402
+
+_FAMS["C06"].append(CorruptLeakFamily(44, 440))
